@@ -396,9 +396,12 @@ def run(ctx):
     def simple(ids, sids=("A", "B")):
         return [T.row(m, s, 10 + i, 5 + j, 2, 1, 2) for i, m in enumerate(ids) for j, s in enumerate(sids)]
 
-    for name, ids in (("na_like_id", ["m1", "NA", "m2"]), ("numeric_id_conflation", ["1", "01", "2"])):
-        p = os.path.join(tmp, "probe_%s.tsv" % name)
-        T.write_table(p, simple(ids))
+    for name, ids in (("na_like_id", ["m1", "NA", "m2"]), ("numeric_id_conflation", ["1", "01", "2"]),
+                      ("ids_differing_by_surrounding_blanks", ["m1", "m1 ", " m1", "chr2:77", " chr2:77"]),
+                      ("ids_differing_by_case_and_inner_blanks", ["m 1", "m  1", "M1", "m1"]),
+                      ("ids_differing_by_surrounding_blanks_csv", ["x9", "x9 ", "y"])):
+        p = os.path.join(tmp, "probe_%s.%s" % (name, "csv" if name.endswith("_csv") else "tsv"))
+        T.write_table(p, simple(ids), sep="," if name.endswith("_csv") else "\t")
         o = observe(p)
         got = sorted(str(x) for x in o.get("names", []))
         ctx.case(key=("probe", name), nontrivial=True)
@@ -409,6 +412,17 @@ def run(ctx):
                 "mutation ids %r each have exactly one usable row in every sample, but the loader kept %r (%s)" % (ids, got, o["kind"]),
                 {"rows": simple(ids), "sep": "\t", "kept": got, "call": "phyclone.data.pyclone.load_data(table, rng, 0.0001, 0.4, False, grid_size=5)"},
             )
+
+    # the same for sample identifiers: samples named "A" and "A " are two samples (each mutation has one row in each)
+    p = os.path.join(tmp, "probe_sample_ids_blanks.tsv")
+    rows_b = simple(["m1", "m2", "m3"], sids=("A", "A ", " B"))
+    T.write_table(p, rows_b)
+    o = observe(p)
+    ctx.case(key=("probe", "sample_ids_blanks"), nontrivial=True)
+    ctx.count("probe=sample_ids_blanks")
+    if o["kind"] != "ok" or len(o.get("names", [])) != 3 or len(o.get("samples", [])) != 3:
+        ctx.fail("C17:_create_raw_data_df:sample_id_verbatim", "sample ids 'A', 'A ' and ' B' are three samples with one usable row per mutation each, but the loader kept mutations %r over samples %r (%s)" % (sorted(str(x) for x in o.get("names", [])), o.get("samples"), o["kind"]),
+                 {"rows": rows_b, "sep": "\t", "call": "phyclone.data.pyclone.load_data(table, rng, 0.0001, 0.4, False, grid_size=5)"})
 
     ctx.extra["tables_with_rejection"] = n_reject
     ctx.extra["tables_outside_quantifier"] = n_deg
